@@ -15,7 +15,7 @@ def prove(ctx):
 
 
 def correspond(ctx):
-    _sched.run(ctx, PROP, GEN, RULE, 1500, 40000)
+    _sched.run(ctx, PROP, GEN, RULE, 1500, 25000)
 
 
 def search(ctx):
